@@ -162,6 +162,10 @@ def _gen_base(rng, cls):
         else:
             v0 = gen.CONVEX3D[fam](rng)
         scale = 10 ** (rng.uniform(-1, 1) if rng.chance(0.8) else rng.uniform(-3, 3))
+        if rng.chance(0.1):
+            # no vendored helper with absolute tolerances sits on this path: some runs live at
+            # very small sizes, where an absolute slack in a ball computation is all there is
+            scale = 10 ** rng.uniform(-7, -3)
         v, R, s, off = gen.place3d(v0, rng, scale=scale,
                                    offset_diam=rng.choice([0.0, 1.0, 1.0, 3.0, 10.0]))
         base = {"cls": cls, "family": fam, "vertices": gen.tolist(v)}
